@@ -2,6 +2,7 @@
 """seeded_meta.py ID HEAD RC FIRST_REPLAY : record in seeded/ID/meta.json what was run against the mutant"""
 import json, os, sys, datetime
 sid, head, rc, first = sys.argv[1:5]
+check = sys.argv[5] if len(sys.argv) > 5 else sid.split('-')[0]
 p = os.path.join('/verif/seeded', sid, 'meta.json')
 m = json.load(open(p)) if os.path.exists(p) else {}
 prop = sid.split('-')[0]
@@ -9,8 +10,12 @@ m.setdefault('property', prop)
 m['confirmed'] = {'how': 'tools/confirm_mutant.sh in a scratch git worktree of /repo: patch applies, go build ./... and the pinned suite pass '
                          '(only the baseline ipblockstest_4 failures), the demonstration fails with the change and passes without it',
                   'suite_passed': True, 'demo_clean': 'pass', 'demo_mutant': 'fail'}
-m['verified'] = {'repo_head': head, 'command': 'tools/run_seeded.sh %s   (scratch worktree of /repo + patch; VERIF_REPO=<worktree> python3 checks/check.py %s quick)' % (sid, prop),
-                 'check': prop, 'exit_code': None if rc == '' else int(rc), 'caught': (rc not in ('', '0')),
+v = {'repo_head': head, 'command': 'tools/run_seeded.sh %s   (scratch worktree of /repo + patch; VERIF_REPO=<worktree> python3 checks/check.py %s quick)' % (sid if check == prop else sid + ':' + check, check),
+                 'check': check, 'exit_code': None if rc == '' else int(rc), 'caught': (rc not in ('', '0')),
                  'first_replay_kind': os.path.basename(first).rsplit('-', 1)[0] if first else None,
                  'date': datetime.datetime.utcnow().strftime('%Y-%m-%dT%H:%MZ')}
+if check == prop:
+    m['verified'] = v
+else:
+    m.setdefault('verified_other', {})[check] = v      # the check of another property run against this mutant
 json.dump(m, open(p, 'w'), indent=1)
